@@ -883,7 +883,7 @@ func (s *Search) differential(spool []string, depth int, deadline, hardEnd time.
 		pinned := round == 2
 		rs := make([]*request, len(pending))
 		for i, w := range pending {
-			rs[i] = &request{Op: "resample", ID: i, B: s.b, Pool: spool, N: n}
+			rs[i] = &request{Op: "resample", ID: i, B: s.b, Pool: spool, N: n, Count: pinned}
 			if w.g != nil {
 				rs[i].Key, rs[i].Ev, rs[i].WantKey = w.g.Parent, w.g.Ev, w.g.Child
 			} else {
@@ -937,13 +937,18 @@ func (s *Search) differential(spool []string, depth int, deadline, hardEnd time.
 		}
 		pending = still
 	}
-	// what is still missing after 6660 canonical evaluations: does the RAW parent still produce it?
+	// Still missing after 660 canonical and 6000 pinned evaluations. Many cases have hundreds of distinct
+	// plans of probability ~1e-4 each, and the unpruned search will have met SOME of them: asking for one
+	// particular rare plan again proves nothing. The canonicalisation is contradicted only by a plan the
+	// RAW parent produces at a solid rate (>= 20 of 6000 evaluations) while the pinned canonical parent -
+	// which differs from it in nothing but the normalised generation - produced it 0 times in 6000
+	// (under equal rates the chance of such a split is 2^-20).
 	rare := 0
 	var firstUnsound string
 	if len(pending) > 0 {
 		rs := make([]*request, len(pending))
 		for i, w := range pending {
-			rs[i] = &request{Op: "resample", ID: i, B: s.b, Pool: spool, N: 600, Raw: true}
+			rs[i] = &request{Op: "resample", ID: i, B: s.b, Pool: spool, N: 6000, Raw: true, Count: true}
 			if w.g != nil {
 				rs[i].Key, rs[i].Ev, rs[i].WantKey = w.g.RawParent, w.g.Ev, w.g.Child
 			} else {
@@ -954,10 +959,10 @@ func (s *Search) differential(spool []string, depth int, deadline, hardEnd time.
 		_, err := s.pool.run(rs, hardEnd, func(rq *request, rp *response) {
 			resampleEvals += rp.Evals
 			seenRaw++
-			if rp.Found {
+			if rp.Hits >= 20 {
 				unresolved++
 				if firstUnsound == "" {
-					firstUnsound = pending[rq.ID].key
+					firstUnsound = fmt.Sprintf("%s (raw parent %s: %d of %d)", pending[rq.ID].key, rq.Key, rp.Hits, rp.Evals)
 				}
 			} else {
 				rare++
@@ -1017,10 +1022,10 @@ func (s *Search) differential(spool []string, depth int, deadline, hardEnd time.
 		"resampling_evaluations":                       resampleEvals,
 		"wall_s":                                       time.Since(t0).Seconds(),
 		"reading": "a key or verdict the unpruned raw search saw and the pruned canonical search did not is re-sampled on the canonical parent (60, 600 evaluations with sampled orders, then 6000 pinned to the raw parent's list order but with the normalised generation): " +
-			"found = sampling gap of the nondeterministic Plan (state added and expanded); still missing after that while the RAW parent reproduces it within 600 = canonicalisation unsound (engine error)",
+			"found = sampling gap of the nondeterministic Plan (state added and expanded); still missing after that while the RAW parent produces it in >= 20 of 6000 evaluations = canonicalisation unsound (engine error); fewer = a rare plan (many cases have hundreds of plans of probability ~1e-4), inconclusive, counted",
 	}
 	if unresolved > 0 {
-		return false, fmt.Errorf("differential: %d keys/verdicts reached by the unpruned raw search are not reproducible from the canonical state in 6660 evaluations: canonicalisation suspect (first: %s)", unresolved, firstUnsound)
+		return false, fmt.Errorf("differential: %d keys/verdicts reached by the unpruned raw search are produced by the raw parent at a solid rate (>=20/6000) and never (0/6660) by the canonical one: canonicalisation unsound (first: %s)", unresolved, firstUnsound)
 	}
 	return done && notExamined == 0, nil
 }
